@@ -15,6 +15,11 @@ Open Scope Z_scope.
 
 Inductive obs := ObsOk (l : list series) | ObsErrLimit | ObsErrOther | ObsSkip.
 
+(* a Seek probe on one series of the SAMPLES client (concreteSeriesIterator): the series'
+   samples as obtained with Next alone, the number of Next calls before the Seek, the Seek
+   target, and what Seek + At + draining with Next returned (None = Seek returned ValNone) *)
+Record probe := mkProbe { p_all : list sample; p_skip : nat; p_t : Z; p_obs : option (list sample) }.
+
 Record case := mkCase {
   c_id : Z;
   c_mint : Z; c_maxt : Z;
@@ -32,7 +37,8 @@ Record case := mkCase {
      name that also occurs in stored series) *)
   c_qchunked : bool;           (* response type of the client underneath *)
   c_mnames : list str;         (* label names of the user's matchers *)
-  c_querier : obs
+  c_querier : obs;
+  c_probes : list probe
 }.
 
 Definition chunk_eqb (a b : chunk) : bool :=
@@ -84,8 +90,16 @@ Definition agree_querier (c : case) : bool :=
       end
   end.
 
+Definition agree_probe (p : probe) : bool :=
+  match seek_probe (floats_of (p_all p)) (hists_of (p_all p)) (p_skip p) (p_t p), p_obs p with
+  | Some (Some l), Some l' => samples_eqb l l'
+  | Some None, None => true
+  | _, _ => false
+  end.
+
 Definition agree (c : case) : bool :=
-  agree_sampled c && agree_frames c && agree_chunked c && agree_querier c.
+  agree_sampled c && agree_frames c && agree_chunked c && agree_querier c
+  && forallb agree_probe (c_probes c).
 
 (* the property on the implementation's own output: both response types return exactly the
    series of the direct query (external labels of the serving side attached), with exactly the
@@ -133,7 +147,13 @@ Definition holds_querier (c : case) : bool :=
         end
   end.
 
-Definition holds (c : case) : bool := holds_sampled c && holds_chunked c && holds_querier c.
+(* Seek is an access path to the same data: it must stand on the first sample, at or after the
+   current one, with timestamp >= t, and Next must continue from there *)
+Definition holds_probe (p : probe) : bool :=
+  samples_eqb (match p_obs p with Some l => l | None => [] end) (seek_spec (p_all p) (p_skip p) (p_t p)).
+
+Definition holds (c : case) : bool :=
+  holds_sampled c && holds_chunked c && holds_querier c && forallb holds_probe (c_probes c).
 
 Definition mismatches (cs : list case) : list Z := map c_id (filter (fun c => negb (agree c)) cs).
 Definition failing_holds (cs : list case) : list Z := map c_id (filter (fun c => negb (holds c)) cs).
